@@ -1,5 +1,5 @@
 (* C19: INSERT ... VALUES pairing of to_insert_call (utils.py:691-706):  data = [dict(zip(columns, row)) for row in values] *)
-From Coq Require Import List String Bool Lia.
+From Coq Require Import List String Ascii Bool Lia.
 From MoSql Require Import Base.Json.
 Import ListNotations.
 Open Scope string_scope.
@@ -12,3 +12,7 @@ Definition insert_values (cols : list string) (rows : list (list jv)) : jv := JL
 (* reading a row back by column name *)
 Definition decode_row (cols : list string) (d : jv) : list (option jv) :=
   match d with JDict kv => map (fun c => dict_get c kv) cols | _ => [] end.
+
+(* what Python's zip iterates over: the list of names, or - when the grammar hands over ONE listed column as a bare string - its characters *)
+Definition py_iter (c : string + list string) : list string :=
+  match c with inl s => map (fun a => String a EmptyString) (list_ascii_of_string s) | inr l => l end.
